@@ -57,6 +57,7 @@ type thread struct {
 	waitOn     []*chanCore // channels this thread is parked on (recv side / send side)
 	waitSend   []sendWait
 	selRecvIdx []int
+	quiet      int
 }
 
 type sendWait struct {
@@ -316,7 +317,7 @@ func (s *Sched) fail(kind, msg string) {
 //go:norace
 func (s *Sched) threadExit(t *thread) {
 	t.finished = true
-	RaceReleaseMerge(unsafe.Pointer(&s.endSync))
+	ReleaseMerge(unsafe.Pointer(&s.endSync))
 	if s.aborting {
 		// wake the next unfinished parked thread so that it unwinds too
 		for _, o := range s.threads {
